@@ -201,6 +201,13 @@ func (qt *quotaTopology) ValidDeleteQuota(quota *v1alpha1.ElasticQuota) error {
 		return fmt.Errorf("delete quota failed, quota %v has %d child pods: %s", quotaName, podCount, displayNames)
 	}
 
+	// pods bound through the quota's namespaces count as well (same rule as the is-parent change)
+	if bound, err := hasQuotaBoundedPods(qt.client, quotaName, extension.GetAnnotationQuotaNamespaces(quota)); err != nil {
+		return fmt.Errorf("failed list pods for quota %v, err: %v", quotaName, err)
+	} else if bound {
+		return fmt.Errorf("delete quota failed, quota %v has pods bound through its namespaces", quotaName)
+	}
+
 	delete(qt.quotaHierarchyInfo[quotaInfo.ParentName], quotaName)
 	delete(qt.quotaHierarchyInfo, quotaName)
 	delete(qt.quotaInfoMap, quotaName)
